@@ -373,6 +373,7 @@ package proxy
 // One provider, reverse proxy, validator set and OAuthProxy per upstream, each from that upstream's configuration.
 //@ func New(config Configuration, statsdClient *statsd.Client) (*SSOProxy, error)
 //@   modifies everything
-//@   sink [C13] provider_is_the_upstreams_own: newProvider requires $arg3.DefaultConfig.ProviderSlug == upstreamConfig.ProviderSlug
+//@   sink [C13] provider_is_the_upstreams_own: newProvider requires upstreamConfig.ProviderSlug != "" ==> $arg3.DefaultConfig.ProviderSlug == upstreamConfig.ProviderSlug
+//@   sink [C13] provider_is_the_default_when_none_stated: newProvider requires upstreamConfig.ProviderSlug == "" ==> $arg3.DefaultConfig.ProviderSlug == config.UpstreamConfigs.DefaultConfig.ProviderSlug
 //@   sink [C13] backend_is_the_upstreams_own: NewUpstreamReverseProxy requires $arg0 == upstreamConfig
 //@   sink [C13] policy_is_the_upstreams_own: SetUpstreamConfig requires $arg0 == upstreamConfig
